@@ -289,6 +289,30 @@ def k1_scan(ctx, repo):
             f"K1 new unordered-collection site not in the model's site table: {s['file']}:{s['lines'][0]} "
             f"{s['function']}: {s['context']} {s['expression']}", {"stage": "K1 static scan", "new_site": s},
             found_input=False)
+    # model DATA derived from the source on every run (fail closed when the derivation no longer applies)
+    src = c10_scan.source_constants(repo)
+    run.extra["derived_from_source"] = src
+    exts = src.get("graphql_extensions")
+    if not exts:
+        run.broken("K2 source-derived data", "walk_graphql_files no longer has an `extensions = (...)` tuple to read")
+    else:
+        probes = sorted(set(exts) | {".graphql", ".graphqls", ".gql", ".txt", ".GQL", ".graphqlx", ".json"})
+        res = model.batch("C10", [[Sym("suffixok"), ["d", "f" + e]] for e in probes])
+        for e, m in zip(probes, res):
+            run.count()
+            if (m == "t") != (e in exts):
+                run.violation(f"K2 source-derived data: schema.py accepts the extensions {exts}; the model's gql_ext says {m} for {e!r}",
+                              {"stage": "K2 extensions", "source": exts, "extension": e, "model": m}, found_input=False)
+    shared = src.get("shared_imports")
+    if not shared or "UNSET_IMPORT" not in shared:
+        run.broken("K2 source-derived data", "constants.py no longer defines the shared ast.ImportFrom constants the model's st_initial mirrors")
+    else:
+        st0 = model.call("C10", [Sym("stinitial")])
+        want = [["base_model", shared["UNSET_IMPORT"]["names"]], ["base_model", shared["UPLOAD_IMPORT"]["names"]]]
+        run.count()
+        if [list(x) for x in st0[:2]] != want or any(v["level"] != 1 for v in shared.values()):
+            run.violation(f"K2 source-derived data: shared import constants {shared} vs model st_initial {st0}",
+                          {"stage": "K2 shared imports", "source": shared, "model": st0}, found_input=False)
     stale = [list(k) for k in table if k not in counts]
     run.extra["table_rows_not_in_code"] = stale
     run.extra["order_sensitive_rows_present"] = [list(k) for k, v in table.items() if v[1] and k in counts]
@@ -476,6 +500,11 @@ def k1_probe(ctx, case: Case, seed: int, res: dict, files: dict[str, bytes]):
     gens = probe.get("fragments_generate") or []
     for i, d in enumerate(probe.get("dfs") or []):
         g = gens[i] if i < len(gens) else {"defs": d["processed"], "exclude": []}
+        # hypothesis of C10_fragments_module_total on the real input: names distinct, every mixin a defined fragment
+        run.count()
+        if len(set(g["defs"])) != len(g["defs"]) or any(x not in g["defs"] for v in d["deps_iter"].values() for x in v):
+            run.violation(f"K1 wf_finput does not hold of a real input of FragmentsGenerator ({case.sid}, seed {seed})",
+                          {"stage": "K1 wf_finput", "defs": g["defs"], "deps": d["deps_iter"]}, found_input=False)
         mix = [[k, sorted(v)] for k, v in d["deps_iter"].items()]
         oc = [[k, lehmer(sorted(v), v)] for k, v in d["deps_iter"].items()]
         cmds.append([Sym("fragorder"), g["defs"], mix, g["exclude"], oc])
